@@ -83,6 +83,8 @@ def _glm_fit(X, y, model, datafit, penalty, solver):
         multiclass = OneVsRestClassifier(model).fit(X, y)
         model.coef_ = np.array(
             [clf.coef_[0] for clf in multiclass.estimators_])
+        model.intercept_ = np.array(
+            [np.ravel(clf.intercept_)[0] for clf in multiclass.estimators_])
         if isinstance(datafit, QuadraticSVC):
             model.dual_coef_ = np.array(
                 [clf.dual_coef_[0] for clf in multiclass.estimators_])
